@@ -60,12 +60,15 @@ theorem allocFor_setCluster {s0 s1 : Store} {cl cl' : Cluster} {n : String} (hs 
 
 /-! ## mutators that do not touch chunk addresses -/
 
-theorem sub_addProxy (s : Store) (a n0 n1 : String) (h : Option String) : Sub s (addProxy s a n0 n1 h).1 := by
+theorem sub_addProxy (s : Store) (a n0 n1 : String) (h : Option String) (i : Option Nat) :
+    Sub s (addProxy s a n0 n1 h i).1 := by
   unfold addProxy
   split
   · exact Sub.refl s
   · dsimp only
-    split <;> exact sub_of_clusters_eq rfl
+    split
+    · exact Sub.refl s
+    · split <;> exact sub_of_clusters_eq rfl
 
 theorem sub_removeProxy (s : Store) (a : String) : Sub s (removeProxy s a).1 := by
   unfold removeProxy
